@@ -4,9 +4,9 @@ export GOFLAGS=-mod=mod GOPROXY=off GOSUMDB=off GOTOOLCHAIN=local GOLOG_LOG_LEVE
 WT=${WT:-/tmp/wt-confirm9}   # usage: WT=<scratch worktree> confirm.sh [<dir>...]   (several shards may run in parallel)
 cd /repo && git worktree add -q $WT HEAD 2>/dev/null
 cd $WT || exit 1
-DIRS=("$@"); [ ${#DIRS[@]} -eq 0 ] && DIRS=(/tmp/seeded-out/C*/[KL])
+DIRS=("$@"); [ ${#DIRS[@]} -eq 0 ] && DIRS=(/tmp/seeded-out7/C*/M)
 for d in "${DIRS[@]}"; do
-  id=$(echo $d | sed 's#/tmp/seeded-out/##; s#/#-#')
+  id=$(echo $d | sed 's#/tmp/seeded-out[0-9]*/##; s#/#-#')
   [ -f $d/patch.diff ] || continue
   demo=$(ls $d/*_test.go 2>/dev/null | head -1)
   [ -n "$demo" ] || { echo "$id NODEMO"; continue; }
